@@ -7,7 +7,7 @@ NOTE_COMMON = ("Trusted base: python's ast grammar; the documented semantics of 
                "helpers resolved through the reference call table, canonical conditionals, fill-by-loop accumulators as "
                "comprehensions, local functions as lambdas, displays unrolled); where a rule evaluates an extracted formula on a "
                "grid of placements the verdict holds for the listed points; the thorough tier re-runs the "
-               "mutant catalogue, the engine self-test and the 385 stored seeded changes (224 defects, 161 behaviour-preserving refactors). Every check also runs the shared-state rules G.1 / G.2 (memo keys, mutable defaults, class-level containers) on the functions it summarises.")
+               "mutant catalogue, the engine self-test and the 505 stored seeded changes (304 defects, 201 behaviour-preserving refactors). Every check also runs, on its anchor files and the functions it summarises, the common rules G.1 - G.3 (shared state, input mutation), G.4 / G.5 (public signatures, constants and pydantic model declarations against the reference table sa/pinned_decls.json), G.6 - G.8 (one-shot iterators, mutation while iterating, swallowed exceptions, truthiness of model instances); new optional parameters of reference functions are analysed at their defaults.")
 
 CLAIMS = {
     "C01": {
